@@ -82,28 +82,80 @@ Proof.
   reflexivity.
 Qed.
 
-(* the exact-zero branch (|i0| below the Angle tolerance): i = eta, Omega = Pi + p + 180 *)
-Definition orb_out0 (eta pie p w0 o0 : R) : R * R * R :=
-  let ET := d2r (dms_sec eta) in
-  let PR := d2r (pie_deg pie) in
-  let F := d2r o0 - PR in
-  (dms_sec eta,
-   red360 (w0 + red360 (r2d (atan2 (- sin ET * sin F) (sin (d2r 0) * cos ET - cos (d2r 0) * sin ET * cos F)))),
-   red360 (red360 (pie_deg pie + dms_sec p) + 180)).
+(* the exact-zero branch (|i0| below the Angle tolerance): three cases on the sign of the stored eta
+   (E = dms_sec (eta_as T t), degrees): Meeus' case for a forward interval, the mirrored one for a
+   backward interval, and the input orientation for a null rotation *)
+Definition eta_horner (t T : R) : R :=
+  t * (Rlit 470029 (-4) + T * (Rlit (-6603) (-5) + Rlit 598 (-6) * T)
+       + t * (Rlit (-3302) (-5) + Rlit 598 (-6) * T + Rlit 6 (-5) * t)).
+Lemma eta_horner_eq J j0 j1 :
+  eta_horner ((j1 - j0) / Rlit 365250 (-1)) ((j0 - J) / Rlit 365250 (-1)) = eta_as (cen J j0) (cen j0 j1).
+Proof. unfold eta_horner, eta_as, cen. Rlit_norm. dec_norm. field. Qed.
 
-Theorem orb_closed0 J j0 j1 w0 o0 : g_JDE2000 Rops = ep J ->
+Definition orb_domega (eta pie o0 : R) : R :=
+  let ET := d2r (dms_sec eta) in
+  let F := d2r o0 - d2r (pie_deg pie) in
+  red360 (r2d (atan2 (- sin ET * sin F) (sin (d2r 0) * cos ET - cos (d2r 0) * sin ET * cos F))).
+
+Definition orb_out0_pos (eta pie p w0 o0 : R) : R * R * R :=
+  (dms_sec eta, red360 (w0 + orb_domega eta pie o0), red360 (red360 (pie_deg pie + dms_sec p) + 180)).
+Definition orb_out0_neg (eta pie p w0 o0 : R) : R * R * R :=
+  (red360 (- dms_sec eta), red360 (w0 + orb_domega eta pie o0), red360 (pie_deg pie + dms_sec p)).
+Definition orb_out0_null (eta pie p w0 o0 : R) : R * R * R :=
+  (0, red360 (w0 + orb_domega eta pie o0), o0).
+
+Ltac orb0_setup J j0 j1 :=
+  assert (Hi' : Rabs (0 - Rlit 0 (-1)) < tol0)
+    by (replace (0 - Rlit 0 (-1)) with 0 by (Rlit_norm; lra); rewrite Rabs_R0; unfold tol0; Rlit_norm; lra);
+  pose proof (eta_horner_eq J j0 j1) as EH;
+  assert (L0 : Rlit 0 (-1) = 0) by (Rlit_norm; lra).
+
+Ltac orb0_finish J j0 j1 T t :=
+  replace ((j1 - j0) / Rlit 365250 (-1)) with t by (unfold t, cen; Rlit_norm; field);
+  replace ((j0 - J) / Rlit 365250 (-1)) with T by (unfold T, cen; Rlit_norm; field);
+  orb_polys T t;
+  try replace (Rlit 1800 (-1)) with 180 by (Rlit_norm; lra);
+  reflexivity.
+
+Theorem orb_closed0_pos J j0 j1 w0 o0 : g_JDE2000 Rops = ep J ->
   let T := cen J j0 in let t := cen j0 j1 in
-  let o := orb_out0 (eta_as T t) (pi_as T t) (p_as T t) w0 o0 in
+  0 < dms_sec (eta_as T t) ->
+  let o := orb_out0_pos (eta_as T t) (pi_as T t) (p_as T t) w0 o0 in
   f_orbital_equinox2equinox Rops (ep j0) (ep j1) (ang 0) (ang w0) (ang o0)
   = VTuple [ang (fst (fst o)); ang (snd (fst o)); ang (snd o)].
 Proof.
-  intros HJ T t o.
-  assert (Hi' : Rabs (0 - Rlit 0 (-1)) < tol0).
-  { replace (0 - Rlit 0 (-1)) with 0 by (Rlit_norm; lra). rewrite Rabs_R0. unfold tol0. Rlit_norm. lra. }
-  pyrun5.
-  replace ((j1 - j0) / Rlit 365250 (-1)) with t by (unfold t, cen; Rlit_norm; field).
-  replace ((j0 - J) / Rlit 365250 (-1)) with T by (unfold T, cen; Rlit_norm; field).
-  orb_polys T t.
-  replace (Rlit 1800 (-1)) with 180 by (Rlit_norm; lra).
-  reflexivity.
+  intros HJ T t HE o. orb0_setup J j0 j1.
+  assert (H1 : Rlit 0 (-1) < dms_sec (eta_horner ((j1 - j0) / Rlit 365250 (-1)) ((j0 - J) / Rlit 365250 (-1))))
+    by (rewrite EH, L0; exact HE).
+  pyrun5. orb0_finish J j0 j1 T t.
+Qed.
+
+Theorem orb_closed0_neg J j0 j1 w0 o0 : g_JDE2000 Rops = ep J ->
+  let T := cen J j0 in let t := cen j0 j1 in
+  dms_sec (eta_as T t) < 0 ->
+  let o := orb_out0_neg (eta_as T t) (pi_as T t) (p_as T t) w0 o0 in
+  f_orbital_equinox2equinox Rops (ep j0) (ep j1) (ang 0) (ang w0) (ang o0)
+  = VTuple [ang (fst (fst o)); ang (snd (fst o)); ang (snd o)].
+Proof.
+  intros HJ T t HE o. orb0_setup J j0 j1. unfold T, t in HE.
+  assert (H1 : dms_sec (eta_horner ((j1 - j0) / Rlit 365250 (-1)) ((j0 - J) / Rlit 365250 (-1))) <= Rlit 0 (-1))
+    by (rewrite EH, L0; lra).
+  assert (H2 : dms_sec (eta_horner ((j1 - j0) / Rlit 365250 (-1)) ((j0 - J) / Rlit 365250 (-1))) < Rlit 0 (-1))
+    by (rewrite EH, L0; exact HE).
+  pyrun5. orb0_finish J j0 j1 T t.
+Qed.
+
+Theorem orb_closed0_null J j0 j1 w0 o0 : g_JDE2000 Rops = ep J ->
+  let T := cen J j0 in let t := cen j0 j1 in
+  dms_sec (eta_as T t) = 0 ->
+  let o := orb_out0_null (eta_as T t) (pi_as T t) (p_as T t) w0 o0 in
+  f_orbital_equinox2equinox Rops (ep j0) (ep j1) (ang 0) (ang w0) (ang o0)
+  = VTuple [ang (fst (fst o)); ang (snd (fst o)); ang (snd o)].
+Proof.
+  intros HJ T t HE o. orb0_setup J j0 j1. unfold T, t in HE.
+  assert (H1 : dms_sec (eta_horner ((j1 - j0) / Rlit 365250 (-1)) ((j0 - J) / Rlit 365250 (-1))) <= Rlit 0 (-1))
+    by (rewrite EH, L0; lra).
+  assert (H2 : Rlit 0 (-1) <= dms_sec (eta_horner ((j1 - j0) / Rlit 365250 (-1)) ((j0 - J) / Rlit 365250 (-1))))
+    by (rewrite EH, L0; lra).
+  pyrun5. orb0_finish J j0 j1 T t.
 Qed.
